@@ -336,6 +336,7 @@ class RecordingStore:
         self.single_raises = set(single_raises)
         self.exc = exc
         self.noop_ids = set()       # deltas the store accepts but reports as "no edit" (value unchanged)
+        self.report = "counts"      # shape of the value a successful call returns: counts | none | empty | edits_none
         self._first_in_turn = True
 
     def new_turn(self, batch_raises=False, single_raises=()):
@@ -357,6 +358,12 @@ class RecordingStore:
         for d, i in zip(deltas, ids):
             self.applied[i] = self.applied.get(i, 0) + 1
             self.weights[i] = self.weights.get(i, 0.0) + float(getattr(d, "delta", 0.0))
+        if self.report == "none":
+            return None
+        if self.report == "empty":
+            return {}
+        if self.report == "edits_none":
+            return {"edits": None, "clamps": None}
         return {"edits": sum(1 for i in ids if i not in self.noop_ids), "clamps": 0}
 
     def __getattr__(self, n):
